@@ -29,16 +29,15 @@ def choose_bool(why=''):
 
 
 def choose_int(n, why=''):
-    """An int in range(n)."""
-    global _POS
-    if _TAPE is None:
+    """An int in range(n), built from ceil(log2 n) tape Booleans (reduced modulo n)."""
+    if _TAPE is None or n <= 1:
         return 0
-    if _POS >= len(_TAPE):
-        raise ModelGap('nondeterminism tape exhausted: ' + why)
-    v = _TAPE[_POS]
-    _POS += 1
-    LOG.append(why)
-    for k in range(n):
-        if v == k:
-            return k
-    return 0
+    bits = 0
+    m = 1
+    while m < n:
+        m *= 2
+        bits += 1
+    v = 0
+    for _ in range(bits):
+        v = v * 2 + (1 if choose_bool(why) else 0)
+    return v % n
